@@ -2223,21 +2223,21 @@ pub fn run(run: &Run) {
 	let thorough = run.tier == Tier::Thorough;
 	run.enumerate("seeds", SEEDS.len() as u64, |i| decide_seed(run, i as usize));
 	let cfg = Cfg { long: thorough, lazy: false };
-	let n = run.tier.pick(5_000, 150_000);
+	let n = run.tier.pick(25_000, 250_000);
 	for (name, g) in FNS {
 		run.explore(name, n, tape_len(cfg), |src| decide(run, &g(src, cfg)));
 	}
 	let lcfg = Cfg { long: thorough, lazy: true };
-	let n = run.tier.pick(1_500, 45_000);
+	let n = run.tier.pick(7_500, 75_000);
 	for (name, g) in FNS {
 		run.explore(&format!("lazy:{name}"), n, tape_len(lcfg), |src| decide(run, &g(src, lcfg)));
 	}
-	let n = run.tier.pick(12_000, 360_000);
+	let n = run.tier.pick(60_000, 600_000);
 	run.explore("rel:sort", n, tape_len(cfg), |src| rel_sort(run, src, cfg));
 	run.explore("rel:sets", n, tape_len(cfg), |src| rel_sets(src, cfg));
 	// arrays of up to 40 elements leave the small-slice code paths of sorting routines: a short look in every tier
 	let big = Cfg { long: true, lazy: false };
-	let n = run.tier.pick(2_000, 20_000);
+	let n = run.tier.pick(10_000, 100_000);
 	for name in LONG_STAGES {
 		let g = FNS.iter().find(|f| f.0 == *name).unwrap().1;
 		run.explore(&format!("long:{name}"), n, tape_len(big), |src| decide(run, &g(src, big)));
